@@ -1,7 +1,8 @@
-CONSTANTS FlawShallowListFreeze = TRUE
+CONSTANTS FlawShallowListFreeze = FALSE
  FlawSharedConstants = TRUE
- FlawInPlaceSort = TRUE
- FlawAppendSharesCapacity = TRUE
+ FlawInPlaceSort = FALSE
+ FlawAppendSharesCapacity = FALSE
+ FlawSortedAliasesOrdered = FALSE
  OnlyTargets = {}
  MaxMut = 2
  DeepVias = {"direct"}
